@@ -303,6 +303,7 @@ func c01CompareIndent(ctx *Ctx, res *Result, scripts []c01Script, kind string) {
 		res.Broken = err.Error()
 		return
 	}
+	ndis := 0
 	for i, s := range scripts {
 		res.Count("indent."+kind, 1)
 		if strings.HasPrefix(impl[i], "panic") {
@@ -320,7 +321,10 @@ func c01CompareIndent(ctx *Ctx, res *Result, scripts []c01Script, kind string) {
 		if ans[i] == impl[i] {
 			continue
 		}
-		c01IndentDisagreement(ctx, res, s, ans[i], impl[i])
+		res.Count("indent.disagreements", 1)
+		if ndis++; ndis <= 3 { // scripts come shortest first; one replay per key is kept anyway
+			c01IndentDisagreement(ctx, res, s, ans[i], impl[i])
+		}
 	}
 	res.Evaluations += len(scripts)
 	res.TracesValidated += len(scripts)
@@ -373,6 +377,19 @@ func c01UnitIndent(ctx *Ctx, res *Result) {
 		}
 	}
 	rec(nil)
+	// ... and all sequences of length maxLen+1 over the 7 core symbols (without `.if exists` and `.ifdef`)
+	core := []c01Sym{c01Alphabet[0], c01Alphabet[2], c01Alphabet[3], c01Alphabet[4], c01Alphabet[5], c01Alphabet[6], c01Alphabet[8]}
+	var rec2 func(prefix []c01Sym)
+	rec2 = func(prefix []c01Sym) {
+		if len(prefix) == maxLen+1 {
+			scripts = append(scripts, c01Script{syms: append([]c01Sym(nil), prefix...), basename: "x.mk", pkgsrc: true})
+			return
+		}
+		for _, y := range core {
+			rec2(append(prefix, y))
+		}
+	}
+	rec2(nil)
 	nexh := len(scripts)
 	rng := NewRng(ctx.Seed + 101)
 	all := append(append([]c01Sym(nil), c01Alphabet...), c01ExtraSyms...)
